@@ -4,6 +4,7 @@
 From Coq Require Import String.
 From FF Require Import model.Bytes model.Show model.Msgp model.Forward model.Wf model.Handshake
      proofs.Bytes_Proofs proofs.Msgp_Proofs.
+From FF Require Import proofs.Take_Proofs.
 From Coq Require Import Lia.
 Open Scope N_scope.
 
@@ -125,7 +126,7 @@ Ltac np_step :=
 Ltac np_tac := cbv zeta; repeat np_step.
 
 Lemma take_np k bs : np (take k bs).
-Proof. unfold take. np_tac. Qed.
+Proof. rewrite !take_unfold. np_tac. Qed.
 #[local] Hint Resolve take_np : np.
 Lemma rd_be_np k bs : np (rd_be k bs).
 Proof. unfold rd_be. np_tac. Qed.
